@@ -2,7 +2,7 @@
 """Regression over all seeded changes: for every /verif/seeded/<id>/ apply the patch to /repo, run the quick check of
 its own property and of the related properties, restore /repo; record the outcome in meta.json (also_caught_by) and in
 notes/seed_matrix.json.   tools_seedmatrix.py [--only C01-1,C02-3]"""
-import json, os, glob, subprocess, sys, re, argparse
+import json, os, glob, subprocess, sys, re, argparse, shutil
 V = os.path.dirname(os.path.abspath(__file__))
 REL = {'C01': ['C16', 'C17', 'C07', 'C08'], 'C02': ['C16', 'C17', 'C08'], 'C03': ['C16', 'C17', 'C07'], 'C04': ['C16', 'C08'], 'C05': ['C16', 'C08', 'C07'],
        'C06': ['C08'], 'C07': ['C05', 'C19', 'C08'], 'C08': ['C04', 'C20', 'C05', 'C13'], 'C09': ['C20', 'C08'], 'C10': ['C20', 'C08'], 'C11': ['C08', 'C19'],
@@ -14,7 +14,7 @@ def sh(cmd):
     return subprocess.run(cmd, capture_output=True, text=True)
 
 
-WT = '/tmp/verif_matrix_wt'   # private worktree of /repo HEAD: the regression does not block /repo (the first confirmation of a seed is done on /repo itself by tools_seedtest.py)
+WT = f'/tmp/verif_matrix_wt_{os.getpid()}'   # private worktree of /repo HEAD: the regression does not block /repo (the first confirmation of a seed is done on /repo itself by tools_seedtest.py)
 
 
 def main():
@@ -27,8 +27,8 @@ def main():
         print('cannot create worktree')
         return 2
     os.environ['VERIF_REPO'] = WT
-    os.environ['VERIF_EVIDENCE_DIR'] = '/tmp/verif_matrix_evidence'
-    os.environ['VERIF_REPLAY_DIR'] = '/tmp/verif_matrix_replays'
+    os.environ['VERIF_EVIDENCE_DIR'] = f'/tmp/verif_matrix_evidence_{os.getpid()}'
+    os.environ['VERIF_REPLAY_DIR'] = f'/tmp/verif_matrix_replays_{os.getpid()}'
     out = {}
     for d in sorted(glob.glob(os.path.join(V, 'seeded', '*'))):
         sid = os.path.basename(d)
@@ -55,6 +55,8 @@ def main():
         json.dump(m, open(os.path.join(d, 'meta.json'), 'w'), indent=1)
         print(sid, {q: (v['exit'], v['classes']) for q, v in res.items()}, flush=True)
     sh(['git', '-C', '/repo', 'worktree', 'remove', '--force', WT])
+    for k in ('VERIF_EVIDENCE_DIR', 'VERIF_REPLAY_DIR'):
+        shutil.rmtree(os.environ[k], ignore_errors=True)
     prev = {}
     mp = os.path.join(V, 'notes', 'seed_matrix.json')
     if os.path.exists(mp):
